@@ -53,6 +53,7 @@ def _audit(event, args):
 
 
 _EVENT_NO = [0]
+FIRED = [False]      # whether the injected line fault of the last run_traced call was actually raised (it may have been swallowed by the library)
 
 
 def install_hook():
@@ -70,12 +71,14 @@ def run_traced(fn, target: str, pkg_dir: str, fault_at: int | None = None):
     _OPEN_LOG = []
     _TARGET = os.path.abspath(target)
     _EVENT_NO[0] = 0
+    FIRED[0] = False
     pkg_dir = os.path.abspath(pkg_dir) + os.sep
 
     def local(frame, event, arg):
         if event == "line":
             _EVENT_NO[0] += 1
             if fault_at is not None and _EVENT_NO[0] == fault_at:
+                FIRED[0] = True
                 raise InjectedFault(f"injected at line event {fault_at}: {os.path.basename(frame.f_code.co_filename)}:{frame.f_lineno}")
         return local
 
@@ -87,6 +90,7 @@ def run_traced(fn, target: str, pkg_dir: str, fault_at: int | None = None):
     exc = None
     old = sys.gettrace()
     sys.settrace(tracer)
+    threading.settrace(tracer)      # threads the library starts (worker pools) are traced and can be faulted too
     try:
         try:
             fn()
@@ -94,6 +98,7 @@ def run_traced(fn, target: str, pkg_dir: str, fault_at: int | None = None):
             exc = e
     finally:
         sys.settrace(old)
+        threading.settrace(None)
     log = _OPEN_LOG
     _OPEN_LOG = None
     _TARGET = None
